@@ -189,10 +189,11 @@ def callee_name(c):
     return c.get("res") or c["def"]
 
 
-def pp_fn(name, f, out=sys.stdout):
+def pp_fn(name, f, out=sys.stdout, locals_=True):
     out.write("fn %s  [%s:%s]\n" % (name, f["file"], f["line"]))
     for i, t in enumerate(f["locals"]):
-        out.write("  let _%d: %s\n" % (i, t))
+        if locals_ or i <= f["argc"]:
+            out.write("  let _%d: %s\n" % (i, t))
     for i, bb in enumerate(f["bbs"]):
         out.write(" bb%d%s:\n" % (i, " (cleanup)" if bb.get("cu") else ""))
         for s in bb["s"]:
@@ -731,3 +732,156 @@ def short(name):
     """Shorten a def path for reports."""
     s = re.sub(r"<impl ([^>]*?)(<[^<>]*>)?( for [^>]*)?>", lambda m: "<impl " + m.group(1).rsplit("::", 1)[-1] + ">", name)
     return s
+
+
+# ----------------------------------------------------------------------------
+# operand description / guards
+
+def dbg_name(f, local):
+    nm = f.get("_dbgmap")
+    if nm is None:
+        nm = {}
+        for name, pl in f.get("dbg", []):
+            if len(pl) == 1:
+                nm.setdefault(pl[0], name)
+        f["_dbgmap"] = nm
+    return nm.get(local)
+
+
+def describe_place(f, p):
+    """Stable textual description of a root place: 'arg:name.field...' / 'local:name' ."""
+    l = p[0]
+    name = dbg_name(f, l)
+    if 0 < l <= f["argc"]:
+        base = "arg:%s" % (name or ("#%d" % l))
+    elif name:
+        base = "var:%s" % name
+    else:
+        base = "tmp"
+    for e in p[1:]:
+        if e == "*" or e == "oc":
+            continue
+        if e[0] == "f":
+            base += "." + (e[2] if e[2] else str(e[1]))
+        elif e[0] == "d":
+            base += "@" + e[1]
+        elif e[0] == "i":
+            base += "[]"
+        elif e[0] == "c":
+            base += "[%d]" % e[1]
+        elif e[0] == "s":
+            base += "[..]"
+    return base
+
+
+def describe(f, o, depth=10, through=TRANSPARENT):
+    """Describe an operand by chasing temporaries to their root."""
+    if o[0] == "k":
+        k = o[1]
+        if "v" in k:
+            return "const:%s" % k["v"]
+        if "const" in k:
+            return "const:%s" % k["const"]
+        if "fn" in k:
+            return "fn:%s" % callee_name(k["fn"])
+        return "const<%s>" % k["t"]
+    p = o[1]
+    r = root_of(f, p[0], depth, through)
+    if isinstance(r, list):
+        return describe_place(f, r + p[1:])
+    if r[0] == "const":
+        k = r[1]
+        if "v" in k:
+            return "const:%s" % k["v"]
+        return "const:%s" % k.get("const", k["t"])
+    if r[0] == "call":
+        inner = ",".join(describe(f, a, depth - 3, through) for a in r[2]) if depth > 3 else "…"
+        return "call:%s(%s)" % (callee_name(r[1]).rsplit("::", 1)[-1], inner)
+    if r[0] == "rvalue":
+        rv = r[1]
+        if rv[0] == "bin":
+            if depth > 3:
+                return "%s(%s,%s)" % (rv[1], describe(f, rv[2], depth - 3, through), describe(f, rv[3], depth - 3, through))
+            return rv[1]
+        if rv[0] == "agg":
+            return "agg:%s%s" % (rv[1].rsplit("::", 1)[-1], ("::" + rv[2]) if rv[2] else "")
+        if rv[0] == "disc":
+            return "disc(%s)" % describe_place(f, rv[1])
+        return rv[0]
+    return "?"
+
+
+CMP_REGION = {
+    "Lt": {"lt"}, "Le": {"lt", "eq"}, "Gt": {"gt"}, "Ge": {"gt", "eq"},
+    "Eq": {"eq"}, "Ne": {"lt", "gt"},
+}
+ALL_ORD = {"lt", "eq", "gt"}
+FLIP = {"lt": "gt", "gt": "lt", "eq": "eq"}
+
+
+def bool_switch_targets(t):
+    """For a switch on a bool: returns (true_target, false_target) or None."""
+    if t[0] != "switch":
+        return None
+    arms = t[2]
+    if len(arms) == 1 and arms[0][0] == 0:
+        return t[3], arms[0][1]
+    if len(arms) == 1 and arms[0][0] == 1:
+        return arms[0][1], t[3]
+    return None
+
+
+def guards(f):
+    """All conditional branches on an integer comparison:
+    [{bb, op, a, b, a_desc, b_desc, t, f, neg}] where the branch goes to `t` iff (a op b)."""
+    out = []
+    for i, bb in enumerate(f["bbs"]):
+        if bb.get("cu"):
+            continue
+        tt = bool_switch_targets(bb["t"])
+        if not tt:
+            continue
+        o = bb["t"][1]
+        p = op_place(o)
+        if p is None:
+            continue
+        neg = False
+        r = root_of(f, p[0])
+        # unwrap Not
+        for _ in range(3):
+            if isinstance(r, tuple) and r[0] == "rvalue" and r[1][0] == "un" and r[1][1] == "Not":
+                neg = not neg
+                q = op_place(r[1][2])
+                if q is None:
+                    break
+                r = root_of(f, q[0])
+            else:
+                break
+        if isinstance(r, tuple) and r[0] == "rvalue" and r[1][0] == "bin" and r[1][1] in CMP_REGION:
+            rv = r[1]
+            t, fl = tt
+            if neg:
+                t, fl = fl, t
+            out.append({"bb": i, "op": rv[1], "a": rv[2], "b": rv[3],
+                        "a_desc": describe(f, rv[2]), "b_desc": describe(f, rv[3]),
+                        "t": t, "f": fl, "line": bb["t"][4]})
+    return out
+
+
+def guard_region(g, a_rx, b_rx):
+    """If guard g compares X (matching a_rx) with Y (matching b_rx) in either order, return
+    the set of orderings of X vs Y for which the branch goes to g['t']; else None."""
+    if re.search(a_rx, g["a_desc"]) and re.search(b_rx, g["b_desc"]):
+        return set(CMP_REGION[g["op"]])
+    if re.search(a_rx, g["b_desc"]) and re.search(b_rx, g["a_desc"]):
+        return {FLIP[x] for x in CMP_REGION[g["op"]]}
+    return None
+
+
+def agg_blocks(f, adt_rx, variant=None):
+    """Blocks that construct an aggregate of ADT matching adt_rx (and variant)."""
+    out = []
+    for i, j, p, rv, line in assignments(f):
+        if rv[0] == "agg" and re.search(adt_rx, rv[1]) and (variant is None or rv[2] == variant):
+            out.append(i)
+    return out
